@@ -1,7 +1,7 @@
 """C12 - Metadata codecs decode what they encode and honour the schema (structural clauses)."""
 from __future__ import annotations
 
-from . import lib_codec, lib_py
+from . import lib_codec, lib_py, lib_kind
 
 LEVEL = "other"
 EXPLANATION = ("Sibling agreement of the struct codec's encode/decode factories (dispatch, formats, defaults, variant order), "
@@ -19,3 +19,4 @@ def run(ctx):
     lib_py.table_name_agreement(ctx, py)
     from . import scopes
     lib_py.unused_params(ctx, py, mods=("metadata",), only=scopes.py_scope("C12"))
+    lib_kind.py_lints(ctx, py, mods=("metadata",), only=scopes.py_scope("C12"))
